@@ -1,56 +1,25 @@
 (* C06/ProofsIbb.v — lemmas about the in-band bytestream reader transition
-   system of C06/ModelExt.v (pinned behaviour of ibb/conn.go Read / Close /
-   closeNoNotify and ibb/ibb.go handlePayload). *)
+   systems of C06/ModelExt.v: [ibbf_step], the code (ibb/conn.go Read / Close /
+   closeRead / closeNoNotify, ibb/ibb.go handlePayload after the repairs), and
+   [ibb_step], the pinned design, for the witnesses of what was repaired. *)
 From Coq Require Import List Arith NArith Bool Lia.
 Import ListNotations.
 From XV Require Import lib.Lts C06.Model C06.ModelExt C06.Proofs.
 
-Definition ibb_enabled (s : ibbstate) (l : ibblabel) : Prop := ibb_step s l <> None.
+Ltac fin := repeat match goal with |- _ /\ _ => split end; intros;
+  try assumption; try reflexivity; try discriminate; try congruence; auto.
 
-(* ---- one outcome per Read: results are only ever appended ---- *)
-
-Lemma ibb_outs_step s l s' :
-  ibb_step s l = Some s' -> exists more, ib_outs s' = ib_outs s ++ more /\ length more <= 1.
-Proof.
-  intro H. destruct l; cbn [ibb_step] in H.
-  - destruct (ib_rd s); try discriminate. destruct cap; try discriminate.
-    destruct (ib_h s); try discriminate.
-    destruct (Nat.eqb (ib_buf s) 0); injection H as <-; cbn.
-    + exists []. rewrite app_nil_r. auto.
-    + eexists. split; [reflexivity|]. cbn. lia.
-  - destruct (ib_rd s); try discriminate. injection H as <-. exists []. cbn. rewrite app_nil_r. auto.
-  - destruct (ib_rd s); try discriminate. destruct cap; try discriminate.
-    destruct (ib_h s); try discriminate.
-    destruct (Nat.eqb (ib_buf s) 0); injection H as <-; cbn; eexists; (split; [reflexivity|cbn; lia]).
-  - destruct (ib_h s); try discriminate. destruct (ib_remote_closed s); try discriminate.
-    injection H as <-. exists []. cbn. rewrite app_nil_r. auto.
-  - destruct (ib_h s); try discriminate.
-    destruct (ib_closed s); [injection H as <-; exists []; cbn; rewrite app_nil_r; auto|].
-    destruct (ib_rd s); injection H as <-; exists []; cbn; rewrite app_nil_r; auto.
-  - destruct (ib_h s); try discriminate. destruct (ib_closed s); try discriminate.
-    injection H as <-. exists []. cbn. rewrite app_nil_r. auto.
-  - destruct (ib_closed s); try discriminate.
-    injection H as <-. exists []. cbn. rewrite app_nil_r. auto.
-Qed.
-
-Lemma ibb_outs_run tr : forall s s',
-  run ibb_step s tr = Some s' -> exists more, ib_outs s' = ib_outs s ++ more.
-Proof.
-  induction tr as [|l tr IH]; intros s s' R; cbn in R.
-  - injection R as <-. exists []. rewrite app_nil_r. reflexivity.
-  - destruct (ibb_step s l) as [s1|] eqn:E; [|discriminate].
-    destruct (ibb_outs_step s l s1 E) as [m1 [E1 _]]. destruct (IH s1 s' R) as [m2 E2].
-    exists (m1 ++ m2). rewrite E2, E1, app_assoc. reflexivity.
-Qed.
-
-(* ---- conservation of bytes; closed is for good ---- *)
-
-Fixpoint arrived_bytes (tr : list ibblabel) : nat :=
-  match tr with
-  | [] => 0
-  | IData n :: rest => n + arrived_bytes rest
-  | _ :: rest => arrived_bytes rest
+Ltac break_match H := repeat match type of H with
+  | context [match ?x with _ => _ end] => destruct x eqn:?; try discriminate
   end.
+
+(* ====================================================================== *)
+(* The code: ibbf_step                                                     *)
+(* ====================================================================== *)
+
+Definition ibbf_enabled (s : ibbfstate) (l : ibbflabel) : Prop := ibbf_step s l <> None.
+
+(* ---- bytes ---- *)
 
 Fixpoint delivered_bytes (o : list rdout) : nat :=
   match o with
@@ -59,263 +28,260 @@ Fixpoint delivered_bytes (o : list rdout) : nat :=
   | RdEOF :: rest => delivered_bytes rest
   end.
 
+Fixpoint accepted_bytes (tr : list ibbflabel) : nat :=
+  match tr with
+  | [] => 0
+  | FData n :: rest => n + accepted_bytes rest
+  | _ :: rest => accepted_bytes rest
+  end.
+
 Lemma delivered_app a b : delivered_bytes (a ++ b) = delivered_bytes a + delivered_bytes b.
 Proof. induction a as [|x a IH]; cbn; [reflexivity|]. destruct x; rewrite IH; lia. Qed.
 
-Lemma arrived_app a b : arrived_bytes (a ++ b) = arrived_bytes a + arrived_bytes b.
+Lemma accepted_app a b : accepted_bytes (a ++ b) = accepted_bytes a + accepted_bytes b.
 Proof. induction a as [|x a IH]; cbn; [reflexivity|]. destruct x; rewrite ?IH; lia. Qed.
 
-Lemma ibb_conservation_step s l s' :
-  ibb_step s l = Some s' ->
-  delivered_bytes (ib_outs s') + ib_buf s' = delivered_bytes (ib_outs s) + ib_buf s + arrived_bytes [l].
+(* bytes of a packet whose handler holds the lock and has not appended yet *)
+Definition pending_bytes (s : ibbfstate) : nat := match fb_h s with FHLocked n => n | _ => 0 end.
+
+Lemma rd_take_bytes s cap :
+  fb_buf s <> 0 ->
+  delivered_bytes (fb_outs (rd_take s (S cap))) + fb_buf (rd_take s (S cap)) = delivered_bytes (fb_outs s) + fb_buf s.
 Proof.
-  intro H. destruct l; cbn [ibb_step] in H; cbn [arrived_bytes].
-  - destruct (ib_rd s); try discriminate. destruct cap as [|cap]; try discriminate.
-    destruct (ib_h s); try discriminate.
-    destruct (Nat.eqb (ib_buf s) 0) eqn:E; injection H as <-; cbn [ibb_set ib_outs ib_buf].
-    + apply Nat.eqb_eq in E. lia.
-    + rewrite delivered_app. cbn [delivered_bytes].
-      apply Nat.eqb_neq in E. destruct (ib_buf s) as [|m]; [congruence|].
-      pose proof (Nat.le_min_r cap m). lia.
-  - destruct (ib_rd s); try discriminate. injection H as <-. cbn [ibb_set ib_outs ib_buf]. lia.
-  - destruct (ib_rd s); try discriminate. destruct cap as [|cap]; try discriminate.
-    destruct (ib_h s); try discriminate.
-    destruct (Nat.eqb (ib_buf s) 0) eqn:E; injection H as <-; cbn [ibb_set ib_outs ib_buf];
-      rewrite delivered_app; cbn [delivered_bytes].
-    + apply Nat.eqb_eq in E. lia.
-    + apply Nat.eqb_neq in E. destruct (ib_buf s) as [|m]; [congruence|].
-      pose proof (Nat.le_min_r cap m). lia.
-  - destruct (ib_h s); try discriminate. destruct (ib_remote_closed s); try discriminate.
-    injection H as <-. cbn [ibb_set ib_outs ib_buf]. lia.
-  - destruct (ib_h s); try discriminate.
-    destruct (ib_closed s); [injection H as <-; cbn [ibb_set ib_outs ib_buf]; lia|].
-    destruct (ib_rd s); injection H as <-; cbn [ibb_set ib_outs ib_buf]; lia.
-  - destruct (ib_h s); try discriminate. destruct (ib_closed s); try discriminate.
-    injection H as <-. cbn [ib_outs ib_buf]. lia.
-  - destruct (ib_closed s); try discriminate. injection H as <-. cbn [ib_outs ib_buf]. lia.
+  intro N. unfold rd_take. cbn [fb_outs fb_buf]. rewrite delivered_app. cbn [delivered_bytes].
+  pose proof (Nat.le_min_r (S cap) (fb_buf s)). lia.
 Qed.
 
-Lemma ibb_conservation_run tr : forall s s',
-  run ibb_step s tr = Some s' ->
-  delivered_bytes (ib_outs s') + ib_buf s' = delivered_bytes (ib_outs s) + ib_buf s + arrived_bytes tr.
-Proof.
-  induction tr as [|l tr IH]; intros s s' R; cbn [run] in R.
-  - injection R as <-. cbn. lia.
-  - destruct (ibb_step s l) as [s1|] eqn:E; [|discriminate].
-    pose proof (ibb_conservation_step s l s1 E) as C1. pose proof (IH s1 s' R) as C2.
-    change (l :: tr) with ([l] ++ tr). rewrite arrived_app. lia.
-Qed.
+(* ---- the invariant ---- *)
 
-Lemma ibb_closed_step s l s' : ibb_step s l = Some s' -> ib_closed s = true -> ib_closed s' = true.
-Proof.
-  intros H C. destruct l; cbn [ibb_step] in H.
-  - destruct (ib_rd s); try discriminate. destruct cap; try discriminate.
-    destruct (ib_h s); try discriminate.
-    destruct (Nat.eqb (ib_buf s) 0); injection H as <-; exact C.
-  - destruct (ib_rd s); try discriminate. injection H as <-. exact C.
-  - destruct (ib_rd s); try discriminate. destruct cap; try discriminate.
-    destruct (ib_h s); try discriminate.
-    destruct (Nat.eqb (ib_buf s) 0); injection H as <-; exact C.
-  - destruct (ib_h s); try discriminate. destruct (ib_remote_closed s); try discriminate.
-    injection H as <-. exact C.
-  - destruct (ib_h s); try discriminate. rewrite C in H. injection H as <-. exact C.
-  - destruct (ib_h s); try discriminate. rewrite C in H. discriminate.
-  - rewrite C in H. discriminate.
-Qed.
-
-(* ---- structural invariant, on every schedule ---- *)
-
-Record IbbInv (s : ibbstate) : Prop := {
-  ii_remote : ib_remote_closed s = true -> ib_closed s = true;
-  ii_waiting : ib_rd s = RdWaiting -> ib_closed s = false;
-  ii_notify : ib_h s = IHNotify -> ib_remote_closed s = false;
-  ii_panic : ib_h s = IHPanic -> ib_closed s = true /\ ib_remote_closed s = false
+Record FInv (s : ibbfstate) : Prop := {
+  fi_locked : fb_h s <> FHIdle -> fb_closed s = false;
+  fi_waiting : fb_rd s = FWaiting -> fb_closed s = false /\ fb_tok s = false;
+  fi_data : (fb_rd s = FChecked \/ fb_rd s = FWaiting) -> 0 < fb_buf s -> fb_h s = FHIdle -> fb_tok s = true;
+  fi_woken : fb_rd s = FWoken false -> fb_closed s = true;
+  fi_eof : In RdEOF (fb_outs s) -> fb_closed s = true;
+  fi_refused : fb_refused s = 0
 }.
 
-Lemma IbbInv_init : IbbInv ibb_init.
-Proof. constructor; cbn; discriminate. Qed.
+Lemma FInv_init : FInv ibbf_init.
+Proof. constructor; cbn; try discriminate; try tauto; intros; try lia. Qed.
 
-Lemma IbbInv_step s l s' : IbbInv s -> ibb_step s l = Some s' -> IbbInv s'.
+Lemma in_snoc_eof outs x : In RdEOF (outs ++ [x]) -> In RdEOF outs \/ x = RdEOF.
+Proof. intro H. apply in_app_or in H. destruct H as [H|[H|[]]]; auto. Qed.
+
+Ltac finx := repeat match goal with
+  | H : ?P, F : ?P -> _ |- _ => specialize (F H)
+  | H : _ /\ _ |- _ => destruct H
+  | H : _ \/ _ |- _ => destruct H
+  | H : In RdEOF (_ ++ [_]) |- _ => apply in_snoc_eof in H
+  | H : (_ =? 0) = true |- _ => apply Nat.eqb_eq in H
+  | H : (_ =? 0) = false |- _ => apply Nat.eqb_neq in H
+  end; try discriminate; try congruence; try lia; auto.
+
+Ltac simp_fb := unfold rd_take, fb_set_rd, close_read;
+  cbn [fb_h fb_closed fb_rd fb_tok fb_buf fb_outs fb_refused].
+
+Lemma FInv_step s l s' : FInv s -> ibbf_step s l = Some s' -> FInv s'.
 Proof.
-  intros [Ir Iw In Ip] H. destruct l; cbn [ibb_step] in H.
-  - destruct (ib_rd s) eqn:Er; try discriminate. destruct cap; try discriminate.
-    destruct (ib_h s) eqn:Eh; try discriminate.
-    destruct (Nat.eqb (ib_buf s) 0); injection H as <-; constructor; cbn; auto; try discriminate;
-      rewrite ?Eh; discriminate.
-  - destruct (ib_rd s) eqn:Er; try discriminate. injection H as <-. constructor; cbn; auto.
-    destruct (ib_closed s); [discriminate|reflexivity].
-  - destruct (ib_rd s) eqn:Er; try discriminate. destruct cap; try discriminate.
-    destruct (ib_h s) eqn:Eh; try discriminate.
-    destruct (Nat.eqb (ib_buf s) 0); injection H as <-; constructor; cbn; auto; try discriminate;
-      rewrite ?Eh; discriminate.
-  - destruct (ib_h s) eqn:Eh; try discriminate. destruct (ib_remote_closed s) eqn:Erc; try discriminate.
-    injection H as <-. constructor; cbn; rewrite ?Erc; auto; try discriminate.
-  - destruct (ib_h s) eqn:Eh; try discriminate.
-    destruct (ib_closed s) eqn:Ec.
-    + injection H as <-. constructor; cbn; rewrite ?Ec; auto; try discriminate.
-    + destruct (ib_rd s) eqn:Er; injection H as <-; constructor; cbn; rewrite ?Ec; auto; discriminate.
-  - destruct (ib_h s) eqn:Eh; try discriminate. destruct (ib_closed s) eqn:Ec; try discriminate.
-    injection H as <-. constructor; cbn; auto; try discriminate.
-    destruct (ib_rd s); discriminate.
-  - destruct (ib_closed s) eqn:Ec; try discriminate.
-    injection H as <-. constructor; cbn; auto.
-    + destruct (ib_rd s); discriminate.
-    + intros E. destruct (Ip E) as [A _]. discriminate.
+  intros [Il Iw Id Iwk Ie Ir] H.
+  destruct l; cbn [ibbf_step] in H.
+  - (* FRead *)
+    destruct (fb_rd s) eqn:Er; try discriminate. destruct cap; try discriminate.
+    destruct (fb_h s) eqn:Eh; try discriminate.
+    destruct (Nat.eqb (fb_buf s) 0) eqn:E0; injection H as <-; constructor; simp_fb; rewrite ?Eh; fin; finx.
+  - (* FWait *)
+    destruct (fb_rd s) eqn:Er; try discriminate.
+    destruct (fb_tok s) eqn:Et; [|destruct (fb_closed s) eqn:Ec]; injection H as <-; constructor;
+      simp_fb; rewrite ?Et, ?Ec; fin; finx.
+  - (* FWake *)
+    destruct (fb_rd s) eqn:Er; try discriminate. destruct cap; try discriminate.
+    destruct (fb_h s) eqn:Eh; try discriminate.
+    destruct (Nat.eqb (fb_buf s) 0) eqn:E0; [destruct open|]; injection H as <-; constructor;
+      simp_fb; rewrite ?Eh; fin; finx.
+  - (* FData *)
+    destruct (fb_h s) eqn:Eh; try discriminate. destruct (fb_closed s) eqn:Ec; try discriminate.
+    injection H as <-. constructor; simp_fb; rewrite ?Ec; fin; finx.
+    all: try (apply Iw; auto).
+  - (* FCheck *)
+    destruct (fb_h s) eqn:Eh; try discriminate.
+    assert (Ec : fb_closed s = false) by (apply Il; discriminate). rewrite Ec in H.
+    injection H as <-. constructor; simp_fb; fin; finx.
+    all: try (apply Iw; auto).
+  - (* FNotify *)
+    destruct (fb_h s) eqn:Eh; try discriminate.
+    assert (Ec : fb_closed s = false) by (apply Il; discriminate). rewrite Ec in H.
+    destruct (fb_rd s) eqn:Er; injection H as <-; constructor; simp_fb; rewrite ?Er; fin; finx.
+  - (* FCloseRemote *)
+    destruct (fb_h s) eqn:Eh; try discriminate. destruct (fb_closed s) eqn:Ec; try discriminate.
+    injection H as <-. constructor; simp_fb; rewrite ?Eh; fin;
+      try (destruct (fb_rd s) eqn:Er; finx; fail).
+    all: try (destruct (fb_rd s) eqn:Er; finx; apply Id; auto).
+  - (* FCloseLocal *)
+    destruct (fb_h s) eqn:Eh; try discriminate. destruct (fb_closed s) eqn:Ec; try discriminate.
+    injection H as <-. constructor; simp_fb; rewrite ?Eh; fin;
+      try (destruct (fb_rd s) eqn:Er; finx; fail).
+    all: try (destruct (fb_rd s) eqn:Er; finx; apply Id; auto).
 Qed.
 
-Theorem IbbInv_run tr s : run ibb_step ibb_init tr = Some s -> IbbInv s.
+Theorem FInv_run tr s : run ibbf_step ibbf_init tr = Some s -> FInv s.
 Proof.
-  apply (invariant_run _ _ ibb_step IbbInv ibb_init IbbInv_init).
-  intros s0 l s1 I H. exact (IbbInv_step s0 l s1 I H).
+  apply (invariant_run _ _ ibbf_step FInv ibbf_init FInv_init).
+  intros s0 l s1 I H. exact (FInv_step s0 l s1 I H).
 Qed.
 
-(* a Read call never gets stuck on its own; the handler always completes *)
-Lemma ibb_local_progress s :
-  (ib_rd s = RdChecked -> ibb_enabled s IWait) /\
-  (ib_rd s = RdWoken -> ib_h s = IHIdle -> forall cap, ibb_enabled s (IWake (S cap))) /\
-  (ib_h s = IHNotify -> ibb_enabled s INotify).
+(* no lost wake-up: a reader is never left blocked while bytes are buffered
+   and the handler is outside its critical section *)
+Definition f_no_lost_wakeup (s : ibbfstate) : Prop :=
+  fb_rd s = FWaiting -> fb_h s = FHIdle -> fb_buf s = 0.
+
+Lemma ibbf_no_lost_wakeup_run tr s : run ibbf_step ibbf_init tr = Some s -> f_no_lost_wakeup s.
 Proof.
-  unfold ibb_enabled. repeat split.
-  - intros E. cbn [ibb_step]. rewrite E. discriminate.
-  - intros E Eh cap. cbn [ibb_step]. rewrite E, Eh. destruct (Nat.eqb (ib_buf s) 0); discriminate.
-  - intros E. cbn [ibb_step]. rewrite E. destruct (ib_closed s); [discriminate|].
-    destruct (ib_rd s); discriminate.
+  intros R Ew Eh. pose proof (FInv_run tr s R) as I.
+  destruct (fb_buf s) eqn:Eb; [reflexivity|].
+  assert (fb_tok s = true) by (apply (fi_data _ I); auto; lia).
+  destruct (fi_waiting _ I Ew). congruence.
 Qed.
 
-Ltac fin := repeat match goal with |- _ /\ _ => split end; intros;
-  try assumption; try reflexivity; try discriminate; try congruence; auto.
-
-(* ---- the handler's panic: only after a local Close ---- *)
-
-Definition no_local_close (s : ibbstate) : Prop :=
-  (ib_closed s = true -> ib_remote_closed s = true) /\
-  (ib_h s = IHNotify -> ib_remote_closed s = false) /\
-  ib_h s <> IHPanic.
-
-Lemma no_local_close_step s l s' :
-  no_local_close s -> l <> ICloseLocal -> ibb_step s l = Some s' -> no_local_close s'.
+(* a blocked reader is released by the next accepted packet, by a close, and
+   by nothing else; the packet's notification is enabled and wakes it *)
+Lemma ibbf_waiting_is_woken s n s1 s2 :
+  FInv s -> fb_rd s = FWaiting -> fb_h s = FHIdle ->
+  ibbf_step s (FData n) = Some s1 -> ibbf_step s1 FCheck = Some s2 ->
+  exists s3, ibbf_step s2 FNotify = Some s3 /\ fb_rd s3 = FWoken true.
 Proof.
-  intros (A & B & C) N H. unfold no_local_close. destruct l; cbn [ibb_step] in H.
-  - destruct (ib_rd s); try discriminate. destruct cap; try discriminate.
-    destruct (ib_h s) eqn:Eh; try discriminate.
-    destruct (Nat.eqb (ib_buf s) 0); injection H as <-; cbn; rewrite ?Eh; fin.
-  - destruct (ib_rd s); try discriminate. injection H as <-. cbn. auto.
-  - destruct (ib_rd s); try discriminate. destruct cap; try discriminate.
-    destruct (ib_h s) eqn:Eh; try discriminate.
-    destruct (Nat.eqb (ib_buf s) 0); injection H as <-; cbn; rewrite ?Eh; fin.
-  - destruct (ib_h s) eqn:Eh; try discriminate. destruct (ib_remote_closed s) eqn:Erc; try discriminate.
-    injection H as <-. cbn. rewrite ?Erc. fin.
-  - destruct (ib_h s) eqn:Eh; try discriminate.
-    destruct (ib_closed s) eqn:Ec.
-    + rewrite (A eq_refl) in B. discriminate (B eq_refl).
-    + destruct (ib_rd s); injection H as <-; cbn; fin.
-  - destruct (ib_h s) eqn:Eh; try discriminate. destruct (ib_closed s) eqn:Ec; try discriminate.
-    injection H as <-. cbn. fin.
-  - congruence.
+  intros I Ew Eh H1 H2. destruct (fi_waiting _ I Ew) as [Ec Et].
+  cbn [ibbf_step] in H1. rewrite Eh, Ec in H1. injection H1 as <-.
+  cbn in H2. injection H2 as <-. cbn. rewrite Ew. eauto.
 Qed.
 
-Lemma no_panic_without_local_close tr : forall s s',
-  no_local_close s -> ~ In ICloseLocal tr -> run ibb_step s tr = Some s' -> ib_h s' <> IHPanic.
+Lemma ibbf_eof_only_when_closed_run tr s :
+  run ibbf_step ibbf_init tr = Some s -> In RdEOF (fb_outs s) -> fb_closed s = true.
+Proof. intros R. apply (fi_eof _ (FInv_run tr s R)). Qed.
+
+Lemma ibbf_no_panic_run tr s : run ibbf_step ibbf_init tr = Some s -> fb_h s <> FHPanic.
 Proof.
-  induction tr as [|l tr IH]; intros s s' P N R; cbn [run] in R.
-  - injection R as <-. apply P.
-  - destruct (ibb_step s l) as [s1|] eqn:E; [|discriminate].
-    apply (IH s1 s'); auto.
-    + eapply no_local_close_step; eauto. intros ->. apply N. left. reflexivity.
-    + intro X. apply N. right. exact X.
+  revert s. induction tr as [|l tr IH] using rev_ind; intros s R.
+  - cbn in R. injection R as <-. discriminate.
+  - apply run_snoc_some in R. destruct R as [s1 [R1 H]].
+    pose proof (FInv_run tr s1 R1) as I. specialize (IH s1 R1).
+    destruct l; cbn [ibbf_step] in H; break_match H; injection H as <-;
+      unfold rd_take, fb_set_rd, close_read; cbn [fb_h]; try congruence; try discriminate.
+    all: try (assert (fb_closed s1 = false) by (apply (fi_locked _ I); congruence); congruence).
 Qed.
 
-Lemma ibb_no_panic_partial tr s :
-  ~ In ICloseLocal tr -> run ibb_step ibb_init tr = Some s -> ib_h s <> IHPanic.
+Lemma ibbf_never_refused_under_lock_run tr s : run ibbf_step ibbf_init tr = Some s -> fb_refused s = 0.
+Proof. intro R. apply (fi_refused _ (FInv_run tr s R)). Qed.
+
+(* ---- one outcome per Read; conservation ---- *)
+
+Lemma ibbf_outs_step s l s' :
+  ibbf_step s l = Some s' -> exists more, fb_outs s' = fb_outs s ++ more /\ length more <= 1.
 Proof.
-  apply no_panic_without_local_close. unfold no_local_close. cbn. repeat split; discriminate.
+  intro H.
+  assert (Same : fb_outs s' = fb_outs s -> exists more, fb_outs s' = fb_outs s ++ more /\ length more <= 1)
+    by (intro E; exists []; rewrite app_nil_r; auto).
+  destruct l; cbn [ibbf_step] in H; break_match H; injection H as <-;
+    unfold rd_take, fb_set_rd, close_read; cbn [fb_outs];
+    first [apply Same; reflexivity | eexists; split; [reflexivity|cbn; lia]].
 Qed.
 
-Lemma ibb_panic_after_local_close :
-  exists s, run ibb_step ibb_init [ICloseLocal; IData 3; INotify] = Some s /\ ib_h s = IHPanic.
-Proof. eexists. split; [vm_compute; reflexivity|reflexivity]. Qed.
-
-(* ---- io.EOF on an open stream: only through an empty data packet ---- *)
-
-Definition eof_inv (s : ibbstate) : Prop :=
-  (In RdEOF (ib_outs s) -> ib_closed s = true) /\
-  (ib_rd s = RdWoken -> ib_closed s = true \/ 0 < ib_buf s) /\
-  (ib_h s = IHNotify -> 0 < ib_buf s).
-
-Definition nonempty_data (l : ibblabel) : Prop := match l with IData 0 => False | _ => True end.
-
-Ltac eof_snoc :=
-  match goal with
-  | X : In RdEOF (_ ++ [_]) |- _ => apply in_app_or in X; destruct X as [X|[X|[]]]; [auto|try discriminate]
-  end.
-
-Lemma eof_inv_step s l s' :
-  IbbInv s -> eof_inv s -> nonempty_data l -> ibb_step s l = Some s' -> eof_inv s'.
+Lemma ibbf_outs_run tr : forall s s',
+  run ibbf_step s tr = Some s' -> exists more, fb_outs s' = fb_outs s ++ more.
 Proof.
-  intros I (A & B & C) N H. unfold eof_inv. destruct l; cbn [ibb_step] in H.
-  - destruct (ib_rd s) eqn:Er; try discriminate. destruct cap; try discriminate.
-    destruct (ib_h s) eqn:Eh; try discriminate.
-    destruct (Nat.eqb (ib_buf s) 0) eqn:E0; injection H as <-; cbn [ibb_set ib_outs ib_closed ib_rd ib_h ib_buf];
-      rewrite ?Eh; fin.
-    eof_snoc.
-  - destruct (ib_rd s) eqn:Er; try discriminate. injection H as <-.
-    cbn [ibb_set ib_outs ib_closed ib_rd ib_h ib_buf]. fin.
-    destruct (ib_closed s); [auto|discriminate].
-  - destruct (ib_rd s) eqn:Er; try discriminate. destruct cap; try discriminate.
-    destruct (ib_h s) eqn:Eh; try discriminate.
-    destruct (Nat.eqb (ib_buf s) 0) eqn:E0; injection H as <-; cbn [ibb_set ib_outs ib_closed ib_rd ib_h ib_buf];
-      rewrite ?Eh; fin.
-    + eof_snoc. apply Nat.eqb_eq in E0. destruct (B eq_refl) as [Y|Y]; [exact Y|lia].
-    + eof_snoc.
-  - destruct (ib_h s) eqn:Eh; try discriminate. destruct (ib_remote_closed s) eqn:Erc; try discriminate.
-    injection H as <-. cbn [ibb_set ib_outs ib_closed ib_rd ib_h ib_buf]. fin.
-    + destruct (B H) as [Y|Y]; [left; exact Y|right; lia].
-    + destruct n; [destruct N|lia].
-  - destruct (ib_h s) eqn:Eh; try discriminate.
-    destruct (ib_closed s) eqn:Ec.
-    + injection H as <-. cbn [ibb_set ib_outs ib_closed ib_rd ib_h ib_buf]. rewrite ?Ec. fin.
-    + destruct (ib_rd s) eqn:Er; injection H as <-; cbn [ibb_set ib_outs ib_closed ib_rd ib_h ib_buf];
-        rewrite ?Ec, ?Er; fin.
-  - destruct (ib_h s) eqn:Eh; try discriminate. destruct (ib_closed s) eqn:Ec; try discriminate.
-    injection H as <-. cbn [ib_outs ib_closed ib_rd ib_h ib_buf]. fin.
-  - destruct (ib_closed s) eqn:Ec; try discriminate.
-    injection H as <-. cbn [ib_outs ib_closed ib_rd ib_h ib_buf]. fin.
+  induction tr as [|l tr IH]; intros s s' R; cbn in R.
+  - injection R as <-. exists []. rewrite app_nil_r. reflexivity.
+  - destruct (ibbf_step s l) as [s1|] eqn:E; [|discriminate].
+    destruct (ibbf_outs_step s l s1 E) as [m1 [E1 _]]. destruct (IH s1 s' R) as [m2 E2].
+    exists (m1 ++ m2). rewrite E2, E1, app_assoc. reflexivity.
 Qed.
 
-Lemma eof_only_when_closed_run tr : forall s s',
-  IbbInv s -> eof_inv s -> Forall nonempty_data tr -> run ibb_step s tr = Some s' -> eof_inv s'.
+Lemma ibbf_conservation_step s l s' :
+  FInv s -> ibbf_step s l = Some s' ->
+  delivered_bytes (fb_outs s') + fb_buf s' + pending_bytes s' =
+  delivered_bytes (fb_outs s) + fb_buf s + pending_bytes s + accepted_bytes [l].
 Proof.
-  induction tr as [|l tr IH]; intros s s' I Q F R; cbn [run] in R.
-  - injection R as <-. exact Q.
-  - destruct (ibb_step s l) as [s1|] eqn:E; [|discriminate]. inversion F as [|? ? F1 F2]; subst.
-    apply (IH s1 s'); auto.
-    + eapply IbbInv_step; eauto.
-    + eapply eof_inv_step; eauto.
+  intros I H. unfold pending_bytes.
+  destruct l; cbn [ibbf_step] in H; cbn [accepted_bytes].
+  - destruct (fb_rd s); try discriminate. destruct cap as [|cap]; try discriminate.
+    destruct (fb_h s) eqn:Eh; try discriminate.
+    destruct (Nat.eqb (fb_buf s) 0) eqn:E0; injection H as <-.
+    + unfold fb_set_rd. cbn [fb_outs fb_buf fb_h]. rewrite ?Eh. lia.
+    + apply Nat.eqb_neq in E0. pose proof (rd_take_bytes s cap E0).
+      unfold rd_take in *. cbn [fb_outs fb_buf fb_h] in *. rewrite ?Eh. lia.
+  - destruct (fb_rd s); try discriminate.
+    destruct (fb_tok s); [|destruct (fb_closed s)]; injection H as <-; unfold fb_set_rd; cbn [fb_outs fb_buf fb_h]; lia.
+  - destruct (fb_rd s); try discriminate. destruct cap as [|cap]; try discriminate.
+    destruct (fb_h s) eqn:Eh; try discriminate.
+    destruct (Nat.eqb (fb_buf s) 0) eqn:E0; [destruct open|]; injection H as <-.
+    + unfold fb_set_rd. cbn [fb_outs fb_buf fb_h]. rewrite ?Eh. lia.
+    + cbn [fb_outs fb_buf fb_h]. rewrite ?Eh, delivered_app. apply Nat.eqb_eq in E0. cbn. lia.
+    + apply Nat.eqb_neq in E0. pose proof (rd_take_bytes s cap E0).
+      unfold rd_take in *. cbn [fb_outs fb_buf fb_h] in *. rewrite ?Eh. lia.
+  - destruct (fb_h s) eqn:Eh; try discriminate. destruct (fb_closed s); try discriminate.
+    injection H as <-. cbn [fb_outs fb_buf fb_h]. lia.
+  - destruct (fb_h s) eqn:Eh; try discriminate.
+    assert (Ec : fb_closed s = false) by (apply (fi_locked _ I); congruence). rewrite Ec in H.
+    injection H as <-. cbn [fb_outs fb_buf fb_h]. lia.
+  - destruct (fb_h s) eqn:Eh; try discriminate.
+    destruct (fb_closed s); [injection H as <-; cbn [fb_outs fb_buf fb_h]; lia|].
+    destruct (fb_rd s); injection H as <-; cbn [fb_outs fb_buf fb_h]; lia.
+  - destruct (fb_h s) eqn:Eh; try discriminate. destruct (fb_closed s); try discriminate.
+    injection H as <-. unfold close_read. cbn [fb_outs fb_buf fb_h]. rewrite ?Eh. lia.
+  - destruct (fb_h s) eqn:Eh; try discriminate. destruct (fb_closed s); try discriminate.
+    injection H as <-. unfold close_read. cbn [fb_outs fb_buf fb_h]. rewrite ?Eh. lia.
 Qed.
 
-Lemma ibb_eof_partial tr s :
-  Forall nonempty_data tr -> run ibb_step ibb_init tr = Some s ->
-  In RdEOF (ib_outs s) -> ib_closed s = true.
+Lemma ibbf_conservation_run tr s :
+  run ibbf_step ibbf_init tr = Some s ->
+  delivered_bytes (fb_outs s) + fb_buf s + pending_bytes s = accepted_bytes tr.
 Proof.
-  intros F R. apply (eof_only_when_closed_run tr ibb_init s IbbInv_init); auto.
-  unfold eof_inv. cbn. repeat split; try discriminate. intros [].
+  revert s. induction tr as [|l tr IH] using rev_ind; intros s R.
+  - cbn in R. injection R as <-. reflexivity.
+  - apply run_snoc_some in R. destruct R as [s1 [R1 H]].
+    pose proof (ibbf_conservation_step s1 l s (FInv_run tr s1 R1) H) as C.
+    rewrite accepted_app. rewrite <- (IH s1 R1). lia.
 Qed.
 
-Lemma ibb_eof_on_empty_packet :
-  exists s, run ibb_step ibb_init [IRead 4; IWait; IData 0; INotify; IWake 4] = Some s /\
-            ib_outs s = [RdEOF] /\ ib_closed s = false.
+(* ---- nobody gets stuck on its own ---- *)
+
+Lemma ibbf_local_progress s :
+  (fb_rd s = FChecked -> ibbf_enabled s FWait) /\
+  (forall o, fb_rd s = FWoken o -> fb_h s = FHIdle -> forall cap, ibbf_enabled s (FWake (S cap))) /\
+  (forall n, fb_h s = FHLocked n -> ibbf_enabled s FCheck) /\
+  (fb_h s = FHNotify -> ibbf_enabled s FNotify).
+Proof.
+  unfold ibbf_enabled. repeat split.
+  - intros E. cbn [ibbf_step]. rewrite E. destruct (fb_tok s); [discriminate|]. destruct (fb_closed s); discriminate.
+  - intros o E Eh cap. cbn [ibbf_step]. rewrite E, Eh.
+    destruct (Nat.eqb (fb_buf s) 0); [destruct o|]; discriminate.
+  - intros n E. cbn [ibbf_step]. rewrite E. destruct (fb_closed s); discriminate.
+  - intros E. cbn [ibbf_step]. rewrite E. destruct (fb_closed s); [discriminate|]. destruct (fb_rd s); discriminate.
+Qed.
+
+(* the schedules that broke the pinned design, on the code *)
+Lemma ibbf_window_schedule :
+  exists s, run ibbf_step ibbf_init [FRead 4; FData 3; FCheck; FNotify; FWait; FWake 4] = Some s /\
+            fb_outs s = [RdData 3] /\ fb_rd s = FNone.
 Proof. eexists. split; [vm_compute; reflexivity|]. split; reflexivity. Qed.
 
-(* ---- the lost wake-up ---- *)
+Lemma ibbf_empty_packet_schedule :
+  exists s, run ibbf_step ibbf_init [FRead 4; FWait; FData 0; FCheck; FNotify; FWake 4; FWait] = Some s /\
+            fb_outs s = [] /\ fb_rd s = FWaiting.
+Proof. eexists. split; [vm_compute; reflexivity|]. split; reflexivity. Qed.
 
-(* the property: a reader is never left blocked while bytes are buffered and
-   the handler is outside its critical section *)
-Definition no_lost_wakeup (s : ibbstate) : Prop :=
-  ib_rd s = RdWaiting -> ib_h s = IHIdle -> ib_buf s = 0.
+Lemma ibbf_data_after_close_schedule :
+  exists s, run ibbf_step ibbf_init [FCloseLocal] = Some s /\ ibbf_step s (FData 3) = None.
+Proof. eexists. split; [vm_compute; reflexivity|reflexivity]. Qed.
+
+(* ====================================================================== *)
+(* The pinned design: ibb_step (witnesses only)                            *)
+(* ====================================================================== *)
+
+Definition ibb_enabled (s : ibbstate) (l : ibblabel) : Prop := ibb_step s l <> None.
 
 Definition lost_wakeup_trace : list ibblabel := [IRead 4; IData 3; INotify; IWait].
 
-Lemma ibb_lost_wakeup :
+Lemma ibb_lost_wakeup_pinned :
   exists s, run ibb_step ibb_init lost_wakeup_trace = Some s /\
     ib_rd s = RdWaiting /\ ib_h s = IHIdle /\ ib_buf s = 3 /\ ib_closed s = false /\ ib_lost s = 1 /\
     forall l, ibb_enabled s l -> (exists n, l = IData n) \/ l = ICloseRemote \/ l = ICloseLocal.
@@ -324,58 +290,11 @@ Proof.
   intros l E. unfold ibb_enabled in E. destruct l; cbn in E; try congruence; eauto.
 Qed.
 
-(* the transition system without the window: no data packet is handled
-   between the reader's empty-buffer check and its wait *)
-Definition ibb_step_nw (s : ibbstate) (l : ibblabel) : option ibbstate :=
-  match l, ib_rd s with
-  | IData _, RdChecked => None
-  | _, _ => ibb_step s l
-  end.
+Lemma ibb_eof_on_empty_packet_pinned :
+  exists s, run ibb_step ibb_init [IRead 4; IWait; IData 0; INotify; IWake 4] = Some s /\
+            ib_outs s = [RdEOF] /\ ib_closed s = false.
+Proof. eexists. split; [vm_compute; reflexivity|]. split; reflexivity. Qed.
 
-Definition nw_inv (s : ibbstate) : Prop :=
-  (ib_rd s = RdChecked -> ib_buf s = 0 /\ ib_h s = IHIdle) /\ no_lost_wakeup s.
-
-Lemma nw_inv_step s l s' : nw_inv s -> ibb_step_nw s l = Some s' -> nw_inv s'.
-Proof.
-  intros (A & B) H. unfold nw_inv, no_lost_wakeup in *. unfold ibb_step_nw in H.
-  destruct l; cbn [ibb_step] in H.
-  - destruct (ib_rd s) eqn:Er; try discriminate. destruct cap; try discriminate.
-    destruct (ib_h s) eqn:Eh; try discriminate.
-    destruct (Nat.eqb (ib_buf s) 0) eqn:E0; injection H as <-; cbn; rewrite ?Eh; fin.
-  - destruct (ib_rd s) eqn:Er; try discriminate. injection H as <-. cbn.
-    destruct (A eq_refl) as [A1 A2]. split; [destruct (ib_closed s); discriminate|auto].
-  - destruct (ib_rd s) eqn:Er; try discriminate. destruct cap; try discriminate.
-    destruct (ib_h s) eqn:Eh; try discriminate.
-    destruct (Nat.eqb (ib_buf s) 0) eqn:E0; injection H as <-; cbn; rewrite ?Eh; fin.
-  - destruct (ib_rd s) eqn:Er; try discriminate;
-      (destruct (ib_h s) eqn:Eh; try discriminate; destruct (ib_remote_closed s); try discriminate;
-       injection H as <-; cbn; rewrite ?Er; split; intros; discriminate).
-  - destruct (ib_h s) eqn:Eh; try discriminate.
-    destruct (ib_closed s) eqn:Ec.
-    + injection H as <-. cbn. split; [intro X; destruct (A X); discriminate|intros; discriminate].
-    + destruct (ib_rd s) eqn:Er; injection H as <-; cbn; rewrite ?Er; split; intros; try discriminate.
-      destruct (A eq_refl). discriminate.
-  - destruct (ib_h s) eqn:Eh; try discriminate. destruct (ib_closed s) eqn:Ec; try discriminate.
-    injection H as <-. cbn. split.
-    + intro X. destruct (ib_rd s) eqn:Er; try discriminate. auto.
-    + intro X. destruct (ib_rd s); discriminate.
-  - destruct (ib_closed s) eqn:Ec; try discriminate.
-    injection H as <-. cbn. split.
-    + intro X. destruct (ib_rd s) eqn:Er; try discriminate. auto.
-    + intro X. destruct (ib_rd s); discriminate.
-Qed.
-
-Lemma ibb_no_lost_wakeup_partial tr s :
-  run ibb_step_nw ibb_init tr = Some s -> no_lost_wakeup s.
-Proof.
-  intro R. apply (invariant_run _ _ ibb_step_nw nw_inv ibb_init) with (tr := tr) (s := s).
-  - unfold nw_inv, no_lost_wakeup. cbn. split; intros; discriminate.
-  - exact nw_inv_step.
-  - exact R.
-Qed.
-
-(* the restricted system is a sub-system of the full one *)
-Lemma ibb_step_nw_sub s l s' : ibb_step_nw s l = Some s' -> ibb_step s l = Some s'.
-Proof.
-  unfold ibb_step_nw. destruct l; auto. destruct (ib_rd s); auto. discriminate.
-Qed.
+Lemma ibb_panic_after_local_close_pinned :
+  exists s, run ibb_step ibb_init [ICloseLocal; IData 3; INotify] = Some s /\ ib_h s = IHPanic.
+Proof. eexists. split; [vm_compute; reflexivity|reflexivity]. Qed.
